@@ -77,6 +77,7 @@ type pRunOpts struct {
 	ICap, MaxRows, MaxBytes, PartRows, PartBytes int
 	MaxTime                                      time.Duration
 	HasAbort, HonorCtx, Partitioned              bool
+	FSDir                                        string // when set: FileSystemDataStore over this directory as DataStore and MetaStore
 	Compression                                  string // "", "none", "snappy", "zstd" (limits are defined on uncompressed sizes)
 }
 
@@ -90,6 +91,10 @@ func newPRun(c *Ctx, name string, o pRunOpts) *pRun {
 	r.plan = newPStorePlan()
 	r.plan.honorCtx = o.HonorCtx
 	r.stores = &pStores{run: r, plan: r.plan, data: newMemDataStore(), meta: bs.NewMemoryMetaStore(), hasAbort: o.HasAbort}
+	if o.FSDir != "" {
+		fs := bs.NewFileSystemDataStore(o.FSDir)
+		r.stores.data, r.stores.meta = fs, fs
+	}
 	cfg := bs.DefaultBloomSearchEngineConfig()
 	cfg.IngestBufferSize = o.ICap
 	cfg.MaxBufferedRows = o.MaxRows
